@@ -192,5 +192,8 @@ fixed("C13", "2dcd717", ["c13:ping:pong-payload-differs", "c13:random:valid-sequ
 fixed("C03", "9cf64cc", ["c03:%s:owner-close-around-add:close-before-open" % m for m in ("LT", "ET", "ONESHOT", "ET-async", "ONESHOT-async")],
       "a connection closed by its owner while AddConn hands it to the poller: the connection has its poller before the open notification is delivered, so the close path can queue the close notification first (a hole in repair add344e; met once in 2880 thorough cases under load, step owner-close-around-add / close-race; the window is a few instructions wide and was not hit again in 20000 directed attempts on a quiet machine)")
 
+fixed("C07", "5b3ef3b", ["c07:request:nbio-rejects:invalid-trailer", "c07:response:nbio-rejects:invalid-trailer"],
+      "a chunked message whose trailer section repeats a declared field behind the last outstanding declared one (Trailer: X with X sent twice; Trailer: X, Y with lines X, Y, X) is rejected with \"invalid trailer\": the parser deletes a declared name from its set when it sees it and refuses every trailer line once the set is empty, while a repeat in front of the last outstanding field is accepted; net/http delivers both values (found when the generator was given repeated trailer fields after a seeded change in the same state had been missed; 24 of 442100 quick messages)")
+
 json.dump(F, open("/verif/known_findings.json", "w"), indent=1)
 print("wrote %d entries (%d known)" % (len(F), sum(1 for f in F if f["status"] == "known")))
